@@ -1306,8 +1306,23 @@ impl<'a> ReservedSession<'a> {
         })
     }
 
+    /// Complete the reserved session: from now on it is an ordinary, live `Session`.
+    ///
+    /// The `reserved` flag is cleared right here and not only when the handle is dropped: the
+    /// handle lives until the handshake function returns, i.e. across the wait for the
+    /// acknowledgement of the handshake's last message. The peer may start using the session as
+    /// soon as it has received that last message; a first secure message processed before the
+    /// handshake task runs again would otherwise not find the (still reserved) session and be
+    /// answered with `SessionNotFound`.
     pub fn complete(&mut self) {
         self.complete = true;
+
+        self.matter.with_state(|state| {
+            // The session might have been removed in the meantime, see `drop`
+            if let Some(session) = state.sessions.get(self.id) {
+                session.reserved = false;
+            }
+        })
     }
 }
 
